@@ -44,7 +44,7 @@ func raceLogSize() int64 {
 func buildConcWAF(c *eCase) (coraza.WAF, string) {
 	waf, err := coraza.NewWAF(coraza.NewWAFConfig().WithDirectives(renderConfig(c)))
 	if err != nil {
-		return nil, "CONFIGERR " + strings.ReplaceAll(err.Error(), " ", "_")
+		return nil, "CONFIGERR"
 	}
 	return waf, ""
 }
